@@ -41,6 +41,9 @@ def _setup_child(st, self_obj, vals):
     vals["g_child"] = j
     V._current.append(st)
     try:
+        n = n_items(self_obj)
+        # an arbitrary child that EXISTS (nothing else is ever assumed about it): in range whenever there is a child
+        st.assume(implies(n > 0, both(0 <= j, j < n)))
         it = item_at(self_obj, j)
         w, opts = it[0], it[1]
         vals["g_child_kind"] = opts[0]
@@ -241,3 +244,218 @@ class pile_sizing:
         yield "box-only-if-every-item-can-be-drawn-in-a-box-pile", implies(both(hb, inr, ST(n) != 1, neg(pile_unsupported(old, j))), pile_item_ok_box(old, j))
 
     loops = {0: Loop(invariant=_psz_loop)}
+
+
+# ==================================================================================================== Columns.sizing
+#
+# The documented rules, per column j = (widget, (kind, amount, is_box)), as the flag of the column:
+#     weight: BOX if the child is BOX, FLOW if FLOW, FIXED if FIXED and (BOX or FLOW)
+#     given:  BOX if BOX; FIXED and FLOW if the child is FLOW        ("known width and widget knows its height")
+#     pack:   FIXED if FIXED, FLOW if FLOW
+# a column without any flag is unsupported (fallback {BOX, FLOW}, decided by the first such column).  Otherwise:
+#     BOX   iff every column has the BOX flag
+#     strict box: some column has BOX only and is not in box_columns  ->  neither FLOW nor FIXED
+#     FIXED iff not strict, some column has the FIXED flag and every column without it is a given box column
+#     FLOW  iff not strict and (some column has the FLOW flag or FIXED)
+#     nothing at all -> the fallback {BOX, FLOW}
+# Spec functions over the number k of columns examined (recursive, unfolded groundly):
+#     CU(k): some column < k is unsupported;  CAB(k): all have BOX;  CSB(k): some is a strict box;
+#     CHF(k) / CHX(k): some has FLOW / FIXED;  CBF(k): some blocks FIXED
+
+from contracts.C08_focus import CINL, CO, COLUMNS  # noqa: E402
+from urwid.widget import columns as _columns  # noqa: E402
+
+_CF = {name: z3.Function(f"colsz${name}", z3.IntSort(), z3.BoolSort()) for name in ("CU", "CAB", "CSB", "CHF", "CHX", "CBF", "CHG")}
+
+
+def CF(name, k):
+    return mk_bool(_CF[name](V._z(k)))
+
+
+def col_parts(c, j):
+    w, (kind, amt, is_box) = item_at(c, j)
+    return w, kind, amt, is_box, sizing_has(w, BOX), sizing_has(w, FLOW), sizing_has(w, FIXED)
+
+
+def col_flags(c, j):
+    """(box, flow, fixed): the documented flag of column j (formulas)."""
+    w, kind, _amt, _is_box, cb, cf, cx = col_parts(c, j)
+    wt, gv, pk = kind == "weight", kind == "given", kind == "pack"
+    box = either(both(wt, cb), both(gv, cb))
+    flow = either(both(wt, cf), both(gv, cf), both(pk, cf))
+    fixed = either(both(wt, cx, either(cb, cf)), both(gv, cf), both(pk, cx))
+    return box, flow, fixed
+
+
+def col_unsupported(c, j):
+    return neg(either(*col_flags(c, j)))
+
+
+def col_gives_height(c, j):
+    """Column j gets its height in _get_fixed_column_sizes from the child itself (not from the other columns)."""
+    w, kind, amt, is_box, cb, cf, cx = col_parts(c, j)
+    return either(both(kind == "given", neg(is_box)), both(kind == "pack", cx, neg(is_box)), both(kind == "weight", either(amt.val <= 0, neg(is_box))))
+
+
+def csz_unfold(c, j):
+    st = cur()
+    zj = V._z(j)
+    ok = z3.And(zj >= 0, zj < V._z(n_items(c)))
+    st.assume(both(neg(CF("CU", 0)), CF("CAB", 0), neg(CF("CSB", 0)), neg(CF("CHF", 0)), neg(CF("CHX", 0)), neg(CF("CBF", 0)), neg(CF("CHG", 0))))
+    w, kind, _amt, is_box, cb, cf, cx = col_parts(c, j)
+    b, f, x = col_flags(c, j)
+    step = both(
+        eq(CF("CU", j + 1), either(CF("CU", j), col_unsupported(c, j))),
+        eq(CF("CAB", j + 1), both(CF("CAB", j), b)),
+        eq(CF("CSB", j + 1), either(CF("CSB", j), both(b, neg(is_box), neg(f), neg(x)))),
+        eq(CF("CHF", j + 1), either(CF("CHF", j), f)),
+        eq(CF("CHX", j + 1), either(CF("CHX", j), x)),
+        eq(CF("CBF", j + 1), either(CF("CBF", j), both(neg(x), neg(both(b, kind == "given"))))),
+        eq(CF("CHG", j + 1), either(CF("CHG", j), col_gives_height(c, j))),
+    )
+    st.assume(mk_bool(z3.Implies(ok, V._zb(step))))
+
+
+def csz_unsupported_stays(c, k):
+    """Lemma `prefix-or-monotone` (below), instantiated for CU: an unsupported column among the first k is among all n."""
+    n = n_items(c)
+    cur().assume(implies(both(0 <= k, k <= n, CF("CU", k)), CF("CU", n)))
+
+
+@lemma("prefix-or-monotone", property="C01")
+class prefix_or_monotone:
+    """P(m) := OR(k) => OR(m) for k <= m, where OR(m + 1) == OR(m) or t.  Base m = k; step from the defining equation."""
+
+    params = dict(ork=Bool, orm=Bool, t=Bool)
+
+    def requires(a):
+        return implies(a.ork, a.orm)  # induction hypothesis
+
+    def claim(a):
+        yield "base", implies(a.ork, a.ork)
+        yield "step", implies(a.ork, either(a.orm, a.t))
+
+
+FLAG_UNIVERSE = tuple(range(64))  # every value `flag` (an OR of _ContainerElementSizingFlag members) can take
+
+
+def containers_call_real(ip, st, f, args, kwargs):
+    """`set()`: an empty set whose later members are sizing modes (`supported`) or sizing flags (`flags`): one model
+    over the union of both universes (C01_decor.SizingSetModel; adding anything else is Unsupported)."""
+    if f is set and not args and not kwargs:
+        return SizingSetModel({x: False for x in MODES + FLAG_UNIVERSE}, False)
+    return sizing_call_real(ip, st, f, args, kwargs)
+
+
+def _flags_all_box(flags):
+    return both(*[implies(h, bool(v & 1)) for v, h in flags.has.items() if isinstance(v, int) and not isinstance(v, Sizing)])
+
+
+def _only(model, kinds):
+    """The set model holds members of the given kind only ('modes' / 'flags')."""
+    is_flag = lambda v: isinstance(v, int) and not isinstance(v, Sizing)  # noqa: E731
+    return both(*[neg(h) for v, h in model.has.items() if (is_flag(v) and kinds == "modes") or (not is_flag(v) and kinds == "flags")])
+
+
+def col_sizing_wf(s):
+    """Columns listed in box_columns hold box widgets (constructor: "a list of column indexes containing box widgets");
+    stated for the arbitrary column."""
+    j = child_index()
+    w, kind, amt, is_box, cb, cf, cx = col_parts(s, j)
+    from contracts.C08_focus import pile_ri
+
+    return both(pile_ri(s), n_items(s) < 2**20, implies(both(0 <= j, j < n_items(s), is_box), cb))
+
+
+def col_ok_box(c, j):
+    """A box Columns hands a box size to exactly the children that report BOX: every child must."""
+    return col_parts(c, j)[4]
+
+
+def col_ok_flow(c, j):
+    """get_column_sizes((maxcol,)): a box_columns child gets a box; else a FLOW child (width,), a packed FIXED child ();
+    any other child a box as tall as the rest (with a ColumnsWarning)."""
+    w, kind, amt, is_box, cb, cf, cx = col_parts(c, j)
+    return both(implies(is_box, cb), implies(both(neg(is_box), neg(cf)), ite(kind == "pack", cx, cb)))
+
+
+def col_ok_fixed(c, j):
+    """_get_fixed_column_sizes: given: a box_columns child a box, else a FLOW child (width,); pack: a FIXED child that is
+    not in box_columns (); positive weight: a box_columns child a box, else a FLOW child (width,)."""
+    w, kind, amt, is_box, cb, cf, cx = col_parts(c, j)
+    return both(implies(kind == "given", ite(is_box, cb, cf)), implies(kind == "pack", both(cx, neg(is_box))),
+                implies(both(kind == "weight", amt.val > 0), ite(is_box, cb, cf)))
+
+
+def _csz_loop(v):
+    c = v.self
+    i = v.i_
+    j = child_index()
+    csz_unfold(c, i - 1)
+    csz_unfold(c, j)
+    yield "no-unsupported-column-so-far", neg(CF("CU", i))
+    yield "nothing-reported-yet", _only(v.supported, "flags")
+    yield "supported-is-still-empty", _only(v.supported, "modes")
+    yield "flags-holds-flags", _only(v.flags, "flags")
+    yield "every-flag-so-far-has-box", eq(_flags_all_box(v.flags), CF("CAB", i))
+    yield "strict-box-seen", eq(v.strict_box, CF("CSB", i))
+    yield "flow-seen", eq(v.has_flow, CF("CHF", i))
+    yield "fixed-seen", eq(v.has_fixed, CF("CHX", i))
+    yield "fixed-blocked", eq(v.block_fixed, CF("CBF", i))
+    seen = both(0 <= j, j < i)
+    w, kind, _amt, is_box, cb, cf, cx = col_parts(c, j)
+    b, f, x = col_flags(c, j)
+    yield "every-column-so-far-is-supported", implies(seen, neg(col_unsupported(c, j)))
+    # the prefix functions at i and the arbitrary column j < i (what "all" / "some" mean for that column)
+    yield "all-box-includes-the-arbitrary-column", implies(both(seen, CF("CAB", i)), b)
+    yield "a-strict-box-column-is-remembered", implies(both(seen, b, neg(is_box), neg(f), neg(x)), CF("CSB", i))
+    yield "a-blocking-column-is-remembered", implies(both(seen, neg(x), neg(both(b, kind == "given"))), CF("CBF", i))
+    yield "a-column-with-a-height-of-its-own-is-remembered", implies(both(seen, col_gives_height(c, j)), CF("CHG", i))
+
+
+@contract(CO + "Columns.sizing", property="C01", inline=CINL, replayable=False, call_real=containers_call_real, setup=_setup_child)
+class columns_sizing:
+    """The documented rules, exactly, and what the statement asks of them: a mode is reported only if every column can be
+    drawn by a Columns of that mode (stated for an arbitrary column `g_child`), and FIXED only if some column has a
+    height of its own."""
+
+    self_shape = COLUMNS
+    params = {}
+    result = Custom(_fresh_sizing, "set of sizing modes")
+    raises = ()
+    static_checks = [_xc_sizing_sets, lambda: Q.xcheck_guarded()]
+
+    def requires(s, a):
+        return col_sizing_wf(s)
+
+    def ensures(old, s, a, result):
+        n = n_items(old)
+        j = child_index()
+        hb, hf, hx = _has(result, BOX), _has(result, FLOW), _has(result, FIXED)
+        if n == 0:
+            yield "empty-columns-is-box-flow", both(hb, hf, neg(hx))
+            return
+        csz_unfold(old, n - 1)
+        csz_unfold(old, j)
+        idx = cur().ghost.get("exit_locals", {}).get("idx")  # ghost: the column at which the loop was left by `return`
+        if idx is not None:
+            csz_unfold(old, idx)
+            csz_unsupported_stays(old, idx + 1)
+        ok = neg(CF("CU", n))
+        strict = CF("CSB", n)
+        fixed = both(neg(strict), CF("CHX", n), neg(CF("CBF", n)))
+        flow = both(neg(strict), either(CF("CHF", n), fixed))
+        box = CF("CAB", n)
+        nothing = both(neg(box), neg(flow), neg(fixed))
+        yield "unsupported-column-gives-the-fallback-box-flow", implies(neg(ok), both(hb, hf, neg(hx)))
+        yield "nothing-supported-gives-the-fallback-box-flow", implies(both(ok, nothing), both(hb, hf, neg(hx)))
+        yield "box-as-documented", implies(both(ok, neg(nothing)), eq(hb, box))
+        yield "flow-as-documented", implies(both(ok, neg(nothing)), eq(hf, flow))
+        yield "fixed-as-documented", implies(both(ok, neg(nothing)), eq(hx, fixed))
+        inr = both(0 <= j, j < n, ok, neg(nothing))
+        yield "box-only-if-every-column-can-be-drawn-in-a-box-columns", implies(both(hb, inr), col_ok_box(old, j))
+        yield "flow-only-if-every-column-can-be-drawn-in-a-flow-columns", implies(both(hf, inr), col_ok_flow(old, j))
+        yield "fixed-only-if-every-column-can-be-drawn-in-a-fixed-columns", implies(both(hx, inr), col_ok_fixed(old, j))
+        yield "fixed-only-if-some-column-has-a-height-of-its-own", implies(both(hx, ok, neg(nothing)), CF("CHG", n))
+
+    loops = {0: Loop(invariant=_csz_loop)}
